@@ -82,7 +82,7 @@ func main() {
 		tier:   tier,
 		seed:   ev.Seed(),
 		rep:    ev.New(prop, c.level, tier),
-		outDir: filepath.Join(ev.Root(), "out", prop),
+		outDir: filepath.Join(ev.Root(), "out", prop, tier),
 		race:   raceEnabled,
 	}
 	var childSpec, outFile string
@@ -109,6 +109,9 @@ func main() {
 		}
 		os.Exit(0)
 	}
+	// one directory per tier, emptied first: child logs, partial reports and above all the race detector's logs of an
+	// earlier run (perhaps of a different tree) must never be read as results of this one
+	_ = os.RemoveAll(ctx.outDir)
 	_ = os.MkdirAll(ctx.outDir, 0o755)
 	os.Exit(c.run(ctx))
 }
